@@ -731,12 +731,25 @@ def quadrature_window(prog, ctx, gq):
             other_ = [a_ for a_ in t.args if a_ != 1][0]
             return bounded01(-other_)
         return False
+    def path_bounded(o):
+        """the if-form of the clamp: the path that returns q or 1 - q (q the quadrature value) has tested q >= 0 and q <= 1
+        (the two excursions return the literal limits on their own paths; a NaN passes both tests and is returned as such)"""
+        qs = [a_ for a_ in o.value.atoms(AUq) if a_.func.__name__ == L + 'Integrate']
+        if len(set(qs)) != 1 or not (o.value == qs[0] or o.value == 1 - qs[0]):
+            return False
+        q_ = qs[0]
+        cs = []
+        for c_ in o.state.conds:
+            cs += list(c_.args) if isinstance(c_, sp.And) else [c_]
+        lo = any(c_ in (sp.Ge(q_, 0), sp.Not(sp.Lt(q_, 0))) or c_ == sp.Le(0, q_) for c_ in cs)
+        hi = any(c_ in (sp.Le(q_, 1), sp.Not(sp.Gt(q_, 1))) or c_ == sp.Ge(1, q_) for c_ in cs)
+        return lo and hi
     unclamped = []
     nq = 0
     for o in outs:
         if o.kind == 'return' and isinstance(o.value, sp.Basic) and any(a_.func.__name__ == L + 'Integrate' for a_ in o.value.atoms(AUq)):
             nq += 1
-            if not bounded01(o.value):
+            if not bounded01(o.value) and not path_bounded(o):
                 unclamped.append(str(o.value)[:120])
     if nq:
         ctx.decide('C06.l', 'quadrature:range', helper, not unclamped, 'the value computed from the quadrature is clamped to [0,1]',
